@@ -69,7 +69,7 @@ func (m *model) ruleSpawn(s *report.Sink) {
 					closure, _ = mc.Fn.(*ssa.Function)
 				}
 				switch {
-				case fn == m.fnNew && closure != nil && closure == m.fnSpawner && !inAnyLoop(g.Block()):
+				case fn == m.fnNew && (closure != nil && closure == m.fnSpawner || callee != nil && callee == m.fnSpawner && callee != m.fnWorker) && !inAnyLoop(g.Block()):
 					s.OK("S9", "New|go spawner", m.ipos(g), "one spawner goroutine per scheduler")
 				case fn == m.fnNew && callee == m.fnLoop && !inAnyLoop(g.Block()):
 					s.OK("S9", "New|go loop", m.ipos(g), "one loop goroutine per scheduler")
@@ -188,7 +188,11 @@ func (m *model) countedSpawn(g *ssa.Go) bool {
 }
 
 func (m *model) checkSpawnChannels(s *report.Sink, readyMake, doneMake *ssa.MakeChan) {
-	for _, fn := range ssax.WithAnon(m.fnNew) {
+	fns := ssax.WithAnon(m.fnNew)
+	if m.fnSpawner != nil && top(m.fnSpawner) != m.fnNew {
+		fns = append(fns, m.fnSpawner)
+	}
+	for _, fn := range fns {
 		ssax.Instrs(fn, func(in ssa.Instruction) {
 			g, ok := in.(*ssa.Go)
 			if !ok || g.Call.StaticCallee() != m.fnWorker || len(g.Call.Args) != 2 {
@@ -485,8 +489,12 @@ func (m *model) ruleWaitEnqueue(s *report.Sink) {
 			}
 			leaves := m.expandPhi(r.Results[0], r.Block(), 0)
 			for _, lf := range leaves {
-				fromDone := doneReg[lf.block]
-				fromFin := finReg[lf.block]
+				lb := lf.block
+				if lf.site != nil {
+					lb = lf.site.Block()
+				}
+				fromDone := doneReg[lb]
+				fromFin := finReg[lb]
 				switch {
 				case fromDone:
 					nDone++
@@ -545,30 +553,82 @@ type leaf struct {
 	val   ssa.Value
 	block *ssa.BasicBlock
 	atoms []atom
+	site  *ssa.Call   // the helper call this value was returned through, if any
+	ret   *ssa.Return // the return statement of that helper
 }
 
-// expandPhi: the possible values of v at block b with the conditions under which each is chosen.
+// expandPhi: the possible values of v at block b with the conditions under which each is chosen:
+// phis are expanded per incoming edge, results of single-site helpers per return statement of the helper.
 func (m *model) expandPhi(v ssa.Value, b *ssa.BasicBlock, depth int) []leaf {
-	p, ok := v.(*ssa.Phi)
-	if !ok || depth > 4 {
-		return []leaf{{v, b, userAtoms(m.localAtoms(b))}}
+	if depth > 5 {
+		return []leaf{{val: v, block: b, atoms: userAtoms(m.localAtoms(b))}}
 	}
-	var out []leaf
-	for k, e := range p.Edges {
-		pred := p.Block().Preds[k]
-		sub := m.expandPhi(e, pred, depth+1)
-		for _, lf := range sub {
-			if i := ssax.IfOf(pred); i != nil && lf.block == pred {
-				for j, su := range pred.Succs {
-					if su == p.Block() && pred.Succs[0] != pred.Succs[1] {
-						lf.atoms = append(append([]atom(nil), lf.atoms...), m.mkAtom(i.Cond, j == 0))
+	switch x := v.(type) {
+	case *ssa.Phi:
+		var out []leaf
+		for k, e := range x.Edges {
+			pred := x.Block().Preds[k]
+			sub := m.expandPhi(e, pred, depth+1)
+			for _, lf := range sub {
+				if i := ssax.IfOf(pred); i != nil && lf.block == pred {
+					for j, su := range pred.Succs {
+						if su == x.Block() && pred.Succs[0] != pred.Succs[1] {
+							lf.atoms = append(append([]atom(nil), lf.atoms...), m.mkAtom(i.Cond, j == 0))
+						}
 					}
 				}
+				out = append(out, lf)
 			}
-			out = append(out, lf)
+		}
+		return out
+	case *ssa.Call:
+		if rets, idx := m.helperReturns(x, 0); rets != nil {
+			var out []leaf
+			for _, r := range rets {
+				for _, lf := range m.expandPhi(r.Results[idx], r.Block(), depth+1) {
+					// conditions inside the helper plus those of the call site
+					lf.atoms = append(append([]atom(nil), lf.atoms...), userAtoms(m.localAtoms(x.Block()))...)
+					lf.site = x
+					out = append(out, lf)
+				}
+			}
+			return out
+		}
+	case *ssa.Extract:
+		if c, ok := x.Tuple.(*ssa.Call); ok {
+			if rets, _ := m.helperReturns(c, x.Index); rets != nil {
+				var out []leaf
+				for _, r := range rets {
+					for _, lf := range m.expandPhi(r.Results[x.Index], r.Block(), depth+1) {
+						lf.atoms = append(append([]atom(nil), lf.atoms...), userAtoms(m.localAtoms(c.Block()))...)
+						lf.site = c
+						lf.ret = r
+						out = append(out, lf)
+					}
+				}
+				return out
+			}
 		}
 	}
-	return out
+	return []leaf{{val: v, block: b, atoms: userAtoms(m.localAtoms(b))}}
+}
+
+// helperReturns: the return statements of the single-site package helper called by c (result index idx must exist).
+func (m *model) helperReturns(c *ssa.Call, idx int) ([]*ssa.Return, int) {
+	callee := c.Call.StaticCallee()
+	if callee == nil || callee.Blocks == nil || m.site[callee] != ssa.CallInstruction(c) {
+		return nil, 0
+	}
+	var rets []*ssa.Return
+	ssax.Instrs(callee, func(in ssa.Instruction) {
+		if r, ok := in.(*ssa.Return); ok && r.Block() != callee.Recover && len(r.Results) > idx {
+			rets = append(rets, r)
+		}
+	})
+	if len(rets) == 0 {
+		return nil, 0
+	}
+	return rets, idx
 }
 
 func (m *model) ruleEnqueue(s *report.Sink) {
